@@ -18,6 +18,9 @@ import "github.com/alibaba/sentinel-golang/util"
 
 type EntryContext struct {
 	entry *SentinelEntry
+	// statSkipped is set when an internal panic ended SlotChain.Entry before the statistic slots
+	// were told the outcome; such an entry passes but is never reported as completed.
+	statSkipped bool
 	// internal error when sentinel Entry or
 	// biz error of downstream
 	err error
@@ -117,6 +120,7 @@ func (i *SentinelInput) reset() {
 func (ctx *EntryContext) Reset() {
 	// reset all fields of ctx
 	ctx.entry = nil
+	ctx.statSkipped = false
 	ctx.err = nil
 	ctx.startTime = 0
 	ctx.rt = 0
